@@ -47,7 +47,7 @@ MkUnit(i, n, thr, lim, isM) ==
     blockUnit |-> n.blk = "unit",
     zeroBase  |-> BWeights(n, isM) = 0,
     tfStrange |-> ~Inside(TF(n, isM), lim),
-    outlierT  |-> FALSE, outlierM |-> FALSE,
+    nullRes |-> FALSE, outlierT  |-> FALSE, outlierM |-> FALSE,
     kind      |-> "num", pt |-> 0, pm |-> 0, pred |-> 0, lower |-> <<>>, upper |-> <<>>,
     \* the numbers, for the materialiser
     num       |-> n,
